@@ -15,7 +15,7 @@ pub type Result<T> = std::result::Result<T, Error>;
 #[derive(Clone, Copy)] pub struct CalculateStrategy { pub c: u8 }
 #[derive(Clone, Copy)] pub struct ControlStrategy { pub c: u8 }
 /// the fields of flow::Rule this function reads; everything else is behind `rule_eq` / `stat_reusable`
-pub struct Rule { pub resource: String, pub calculate_strategy: CalculateStrategy, pub control_strategy: ControlStrategy, pub rest: u64 }
+pub struct Rule { pub id: String, pub resource: String, pub calculate_strategy: CalculateStrategy, pub control_strategy: ControlStrategy, pub rest: u64 }
 #[verifier::external_body] pub struct StandaloneStat { _p: u8 }
 #[verifier::external_body] pub struct Controller { _p: u8 }
 pub struct ControllerGenKey { pub calculate_strategy: CalculateStrategy, pub control_strategy: ControlStrategy }
@@ -218,7 +218,7 @@ pub exec static GEN_FUN_MAP: GenMapLock ensures true { GenMapLock { p: 0 } }
 //@ invariant[0]: old_res_tcs@.len() < MAX
 //@ invariant[0]: (new_res_tcs@, old_res_tcs@) == run(res, rules_of_res@, idx as int, old(old_res_tcs)@)
 //@ decreases[0]: rules_of_res.len() - idx
-//@ proof-after `let (eq_idx, reuse_stat_idx)`: proof { l_eq_index(*rule, old_res_tcs@, 0); l_reuse_index(*rule, old_res_tcs@, 0, eq_index(*rule, old_res_tcs@, 0)); }
+//@ proof-after `calculate_reuse_index_for(rule, `: proof { l_eq_index(*rule, old_res_tcs@, 0); l_reuse_index(*rule, old_res_tcs@, 0, eq_index(*rule, old_res_tcs@, 0)); }
 //@end
 
 proof fn verif_canary() { assert(false); }
